@@ -83,8 +83,10 @@ func (f *Finding) matches(prop string, v *Violation) bool {
 	if f.Match.Kind != "" && f.Match.Kind != v.Kind {
 		return false
 	}
-	if f.Match.Harness != "" && f.Match.Harness != v.Harness {
-		return false
+	if f.Match.Harness != "" {
+		if ok, _ := filepath.Match(f.Match.Harness, v.Harness); !ok {
+			return false
+		}
 	}
 	for _, s := range f.Match.SiteContains {
 		if !strings.Contains(v.Site, s) {
